@@ -68,7 +68,20 @@ BuilderHeader == \E b \in Builders, n \in HNames, v \in HVals, ap \in BOOLEAN :
                 Live(store, b) /\ store' = OpHeader(store, b, n, v, ap) /\ hist' = Append(hist, <<"hdr", b, n, v, ap>>)
 Prepare == \E b \in Builders : Live(store, b) /\ store' = OpPrepare(store, b) /\ hist' = Append(hist, <<"prep", b>>)
 
-Next == NewSession \/ Clone \/ SessionSet \/ SessionHeader \/ NewBuilder \/ BuilderSet \/ BuilderHeader \/ Prepare
+\* sending a prepared request changes nothing; what it does on the wire follows from its own settings
+Send == \E b \in Builders : Live(store, Prepared(b)) /\ store' = store /\ hist' = Append(hist, <<"send", Prepared(b)>>)
+
+\* expected wire behaviour against a peer that always redirects and sends 12 header fields:
+\* [hops, outcome] from the request's own max_redirections / follow_redirects / max_headers
+RedirLimit(v) == CASE v = 0 -> 5 [] v = 1 -> 2 [] OTHER -> 9
+HeaderLimit(v) == CASE v = 0 -> 100 [] v = 1 -> 7 [] OTHER -> 33
+FieldOr(val, fld, dflt) == IF fld \in DOMAIN val.f THEN val.f[fld] ELSE dflt
+WireBehaviour(val) ==
+  IF HeaderLimit(FieldOr(val, "maxhdr", 0)) < 12 THEN [hops |-> 1, res |-> "InvalidResponse:Header"]
+  ELSE IF FieldOr(val, "follow", 0) = 1 THEN [hops |-> 1, res |-> "ok"]
+  ELSE [hops |-> RedirLimit(FieldOr(val, "redir", 0)) + 1, res |-> "TooManyRedirections"]
+
+Next == Send \/ NewSession \/ Clone \/ SessionSet \/ SessionHeader \/ NewBuilder \/ BuilderSet \/ BuilderHeader \/ Prepare
 Spec == Init /\ [][Next]_vars
 
 \* "never back or sideways": an operation changes only the object it names (and the one it creates)
